@@ -7,6 +7,7 @@ That produces the replay (element, isotope, predicate) when a theorem fails.
 """
 from ..core import LEAN
 from ..gen import gen_periodic
+from . import c18_state
 
 LEVEL = 'proof'
 LEVEL_TEXT = ('Every clause is a universally quantified theorem over the complete finite domain (118 elements x all tabulated '
@@ -306,6 +307,23 @@ def correspond(ctx):
                     ctx.fail(sig(pred, detail), f'{pred} fails for {detail}', {'predicate': pred, 'symbol': sym, 'z': z, 'detail': detail})
         except Exception as e:  # the element itself is unreachable: already reported by the lookup predicates
             ctx.dist('pack-matcher-skipped:' + type(e).__name__)
+    # round 5: the property's quantifier taken literally (isotope x charge x radical of every element through both matchers) and
+    # object histories (labelled / asked in any order) — see c18_state.py
+    for z, sym in iupac():
+        try:
+            for pred, detail, ok in c18_state.state_grid_predicates(sym):
+                ctx.count((pred, detail.split(':expected=')[0]))
+                ctx.dist(pred)
+                if not ok:
+                    ctx.fail(f'C18/{pred}/{sym}', f'{pred} fails for {detail}', {'predicate': pred, 'symbol': sym, 'detail': detail.split(':expected=')[0]})
+            for pred, detail, ok, ops, n in c18_state.history_predicates(sym, ctx.rng):
+                ctx.count((pred, detail if ok else sym + repr(ops)), n=n)
+                ctx.dist(pred)
+                ctx.dist('history-steps', n)
+                if not ok:
+                    ctx.fail(f'C18/{pred}/{sym}', f'{pred} fails for {detail}', {'predicate': pred, 'symbol': sym, 'ops': ops, 'detail': detail})
+        except Exception as e:  # the element itself is unreachable: already reported by the lookup predicates
+            ctx.dist('state-history-skipped:' + type(e).__name__)
     for pred, detail, ok in field_grid_predicates():
         ctx.count((pred, detail))
         ctx.dist(pred)
@@ -358,6 +376,17 @@ def probe(inp):
     if inp['predicate'] in ('pack-roundtrip-isotope', 'matcher-finds-isotope'):
         bad = [(p, d) for p, d, ok in pack_matcher_predicates(inp['symbol']) if not ok and p == inp['predicate']]
         return bool(bad), f'{inp["predicate"]} on {inp["symbol"]}: failing cases {bad}' if bad else f'{inp["predicate"]} holds for {inp["symbol"]}'
+    if inp['predicate'] == 'matcher-state-grid':
+        bad = [d for p, d, ok in c18_state.state_grid_predicates(inp['symbol']) if not ok]
+        return bool(bad), f'matcher-state-grid on {inp["symbol"]}: {len(bad)} failing cases, e.g. {bad[:4]}' if bad else f'matcher-state-grid holds for {inp["symbol"]}'
+    if inp['predicate'].startswith('history-'):
+        from chython.periodictable import Element
+        import random
+        if inp.get('ops'):
+            bad, _ = c18_state.run_history(Element.from_symbol(inp['symbol']), inp['ops'])
+            return bad is not None, f'{inp["predicate"]} on {inp["symbol"]}: history {inp["ops"]}: ' + (f'step {bad[0]} {bad[1]}: got {bad[2]!r}, want {bad[3]!r}' if bad else 'every observable agrees with the tables and with a fresh object')
+        bad = [d for p, d, ok, ops, n in c18_state.history_predicates(inp['symbol'], random.Random(0), n_random=0) if not ok and p == inp['predicate']]
+        return bool(bad), f'{inp["predicate"]} on {inp["symbol"]}: {bad[:3]}' if bad else f'{inp["predicate"]} holds for {inp["symbol"]}'
     if inp['predicate'] in ('query-charge-settable', 'matcher-charge-hydrogen-grid'):
         bad = [(p, d) for p, d, ok in field_grid_predicates() if not ok and p == inp['predicate']]
         return bool(bad), f'{inp["predicate"]}: failing cases {bad[:6]}' if bad else f'{inp["predicate"]} holds on the whole grid'
